@@ -54,6 +54,14 @@ CHECKS["C01"] = dict(
     design="5/C01",
 )
 
+CHECKS["C02"] = dict(
+    technique="differential execution of generated programs before/after each single rule (all ~86 rules x every program), rule registry by introspection of main.py",
+    text="Every rule called by main.py (and the other public source->str callables) is applied alone to family and grammar programs; wherever it "
+         "changes the text the result is executed against the original in the fuel-bounded oracle. Per-rule fire counts and uncovered rules are reported.",
+    note="A rule that emits a qualified stdlib name is judged together with the add_missing_imports stage that always follows it; pandas rules are uncovered (no pandas offline); same design-level findings as C01, excluded by construction.",
+    design="5/C02",
+)
+
 NOT_YET = {}
 
 
